@@ -14,7 +14,7 @@ This module is an obligation of C01's and C08's check whenever the translator AC
 import ScpiVerif.Model.Ctx
 import ScpiVerif.Lemmas.InputC
 
-namespace ScpiVerif.Props.C01Gen
+namespace ScpiVerif.Props.C01InputGen
 open ScpiVerif ScpiVerif.Ctx ScpiVerif.Gen.InputC ScpiVerif.Lemmas.InputC
 open ScpiVerif.Lexer (Bytes)
 
@@ -89,4 +89,4 @@ example :
     (toM r.1).position = 0 ∧ (toM r.1).buf.take 3 = [65, 65, 0] ∧ r.2 = false ∧ r.1.ub = false := by
   decide +kernel
 
-end ScpiVerif.Props.C01Gen
+end ScpiVerif.Props.C01InputGen
